@@ -1,6 +1,7 @@
 package props
 
 import (
+	"golang.org/x/tools/go/ssa"
 	"fmt"
 	"regexp"
 
@@ -205,11 +206,13 @@ func c14Order(w *core.World, id string) []core.Result {
 	arr := regexp.MustCompile(`^store &local<\[(\d+)\]cr/reconcile\.TypedReconciler\[\*apis/v1\.NodeClaim\]>\[(\d+)\] = \$0\.(\w+)$`)
 	got := map[string]string{}
 	size := ""
-	for _, s := range w.Sites(fn, arr, false) {
-		m := arr.FindStringSubmatch(w.RenderInstr(s))
-		got[m[2]] = m[3]
-		size = m[1]
-	}
+	w.WithHelpers(fn, func(f *ssa.Function, _ ssa.Instruction) {
+		for _, s := range w.Sites(f, arr, false) {
+			m := arr.FindStringSubmatch(w.RenderInstr(s))
+			got[m[2]] = m[3]
+			size = m[1]
+		}
+	})
 	construct := "REG:" + ctrl + ":order"
 	if size != fmt.Sprint(len(want)) || len(got) != len(want) {
 		return []core.Result{core.Bad(id, "REG", construct, w.Pos(fn.Pos()), fmt.Sprintf("sub-reconciler list has %s entries %v, expected %v", size, got, want))}
